@@ -40,8 +40,11 @@ type TeardownCase struct {
 	// proceed at the same moment (e.g. two listeners about to write a frame to one connection)
 	Barriers []string `json:"barriers,omitempty"`
 	// HeaderPauseUS: the client link deschedules a writer for this long after every short write (frame header)
-	HeaderPauseUS int  `json:"header_pause_us,omitempty"`
-	RealWS        bool `json:"real_ws,omitempty"`
+	HeaderPauseUS int `json:"header_pause_us,omitempty"`
+	// ChildDelayUS: the services answer the child-step requests of an event after this delay, so that a teardown
+	// can fall into a request that is in flight
+	ChildDelayUS int  `json:"child_delay_us,omitempty"`
+	RealWS       bool `json:"real_ws,omitempty"`
 	// MuteClose: the real websocket upstream never answers close frames (only the end of the TCP connection ends it)
 	MuteClose bool `json:"mute_close,omitempty"`
 }
@@ -148,7 +151,8 @@ func subscriptionGoroutines() (int, string) {
 	cnt := 0
 	which := ""
 	for _, g := range strings.Split(string(buf[:n]), "\n\n") {
-		for _, fn := range []string{"subscriptionEntry).Listen", "subscriptionEntry).Close", "MultiOpQueryer).Subscribe", "pebbles.sendHeartbeat", "subscriptionHandler"} {
+		for _, fn := range []string{"subscriptionEntry).Listen", "subscriptionEntry).Close", "MultiOpQueryer).Subscribe", "pebbles.sendHeartbeat", "subscriptionHandler",
+			"pebbles/queryer.", "pebbles/executor."} {
 			if strings.Contains(g, fn) {
 				cnt++
 				which = fn
@@ -191,6 +195,9 @@ func checkC18(c *TeardownCase) (*ev.Failure, map[string]bool) {
 	net, err := fake.NewNet(w)
 	if err != nil {
 		return ev.Failf("harness", "%v", err), info
+	}
+	if c.ChildDelayUS > 0 {
+		net.BeforeRespond = func(string, []*fake.Received) { time.Sleep(time.Duration(c.ChildDelayUS) * time.Microsecond) }
 	}
 	up := subx.NewUpstream(net)
 	var gw *pebbles.Gateway
@@ -491,6 +498,9 @@ func genTeardownCase(t *rapid.T) *TeardownCase {
 	}
 	if rapid.IntRange(0, 3).Draw(t, "slowlink") == 0 {
 		c.HeaderPauseUS = rapid.IntRange(50, 500).Draw(t, "pause")
+	}
+	if rapid.IntRange(0, 2).Draw(t, "slowchild") == 0 {
+		c.ChildDelayUS = rapid.IntRange(500, 8000).Draw(t, "childdelay")
 	}
 	if c.NSubs >= 2 && rapid.IntRange(0, 2).Draw(t, "barrier") == 0 {
 		c.Barriers = []string{rapid.SampledFrom([]string{"se.Listen.beforeWrite", "se.Close.beforeSend", "se.Listen.deferEnter", "se.Listen.beforeLock"}).Draw(t, "barrierpoint")}
